@@ -30,6 +30,7 @@ def draw_knobs(rng, cfg):
     k["hostile"] = rng.choice([0.05, 0.15, 0.3])
     k["brackets"] = rng.random() < cfg.get("bracket_rate", 0.1)
     k["restart_rate"] = rng.choice([0.1, 0.2, 0.35])
+    k["chain_rate"] = rng.choice([0.0, 0.05, 0.12])
     if cfg.get("force"):
         k.update(cfg["force"])
     return k
@@ -266,6 +267,33 @@ def generate_and_run(seed, cfg):
     while len(ex.ops) < nops:
         live = ex.live()
         r = rng.random()
+        if live and rng.random() < knobs.get("chain_rate", 0.0) and restarts < 8:
+            # scenario chain: (warm the operand's memo) -> derive -> restart the *result* at once -> compare.
+            # A modifier that hands memoised values of its operand to the result is only visible when the
+            # operand was read before and the result is compared with a twin that has to derive them.
+            u = rng.choice(live)
+            if rng.random() < 0.7:
+                warm = list(W.ALL_READS)
+                rng.shuffle(warm)
+                k = rng.choice([1, 2, 4, len(warm)])
+                for name in warm[:k]:
+                    ex.step({"op": "read", "on": u, "args": [name]})
+            d = W.gen_derivation(rng, at, [u], ex.slots)
+            d["on"] = u
+            ex.step(d)
+            ri = len(ex.ops) - 1
+            if W.is_url(ex.slots[ri]):
+                ex.step(W.gen_restart(rng, [ri]))
+                restarts += 1
+                ti = len(ex.ops) - 1
+                if W.is_url(ex.slots[ti]):
+                    o1 = list(W.ALL_READS)
+                    o2 = list(W.ALL_READS)
+                    rng.shuffle(o1)
+                    rng.shuffle(o2)
+                    ex.step({"op": "pair_deep", "on": ri, "other": ti, "args": [o1, o2]})
+            ex.ctr.inc("derive_restart_chains")
+            continue
         if not live or r < 0.22:
             op = W.gen_constructor(rng, at, live)
         elif r < 0.22 + knobs["restart_rate"] and restarts < 8:
